@@ -245,8 +245,9 @@ def write_strategy(tier):
     def build(draw):
         langs = draw(multi_strategy(allow_prefix=True))
         codes = [l["code"] for l in langs]
+        prev = draw(st.one_of(st.none(), st.none(), multi_strategy(allow_prefix=True)))
         return {"langs": langs, "writer": draw(st.sampled_from(["dfxp", "dfxp-legacy", "dfxp-single", "sami", "webvtt"])),
-                "pick": draw(st.sampled_from([None] + codes + ["xx"]))}
+                "pick": draw(st.sampled_from([None] + codes + ["xx"])), "prev": prev}
     return build()
 
 
@@ -264,10 +265,20 @@ def check_write(case, rec):
     pick = case["pick"]
     cs = model.to_pycaption(_to_set(langs))
     by = {l["code"]: l for l in langs}
+    wcls = {"dfxp": DFXPWriter, "dfxp-legacy": LegacyDFXPWriter, "dfxp-single": SinglePositioningDFXPWriter,
+            "sami": SAMIWriter, "webvtt": WebVTTWriter}[w]
+    writer = wcls()
+    if case.get("prev"):
+        # the writer object has written another (multi-language) set before
+        try:
+            writer.write(model.to_pycaption(_to_set(case["prev"])))
+        except Exception:  # noqa
+            pass
+        rec.label("reused-writer")
     if w.startswith("dfxp"):
-        cls = {"dfxp": DFXPWriter, "dfxp-legacy": LegacyDFXPWriter, "dfxp-single": SinglePositioningDFXPWriter}[w]
+        cls = wcls
         with must(f"{cls.__name__}.write"):
-            out = cls().write(cs, force=pick) if pick else cls().write(cs)
+            out = writer.write(cs, force=pick) if pick else writer.write(cs)
         try:
             doc = P.parse_dfxp(out)
         except P.RefParseError as e:
@@ -287,7 +298,7 @@ def check_write(case, rec):
                 require(g == e, lambda: f"{w}: div {d['lang']} holds {g}, expected {e}")
     elif w == "webvtt":
         with must("WebVTTWriter.write"):
-            out = WebVTTWriter().write(cs, lang=pick) if pick in codes else WebVTTWriter().write(cs)
+            out = writer.write(cs, lang=pick) if pick in codes else writer.write(cs)
         cues = P.parse_webvtt(out)
         sel = pick if pick in codes else codes[0]
         g = [(c["start"], " ".join(P.vtt_payload_lines(c["lines"]))) for c in cues]
@@ -295,7 +306,7 @@ def check_write(case, rec):
         require(g == e, lambda: f"webvtt(lang={pick!r}): cues {g}, expected those of {sel}: {e}")
     else:
         with must("SAMIWriter.write"):
-            out = SAMIWriter().write(cs)
+            out = writer.write(cs)
         doc = P.parse_sami(out)
         starts = [int(sy["start"]) for sy in doc["syncs"]]
         require(starts == sorted(starts), lambda: f"sami: SYNC starts not in non-decreasing order: {starts}")
